@@ -79,6 +79,8 @@ def classify_fragment(repo, fn, expr, at, depth=4):
 
 def check(ctx):
     repo = ctx.repo
+    from . import generic as _gen
+    _gen.language_traps(ctx, _gen.anchor_functions(repo, "C18"), "the property holds for every input, on every call")
     for r, t in (("TNT-json", "dynamic text written to the file is json.dumps output, an indent, or a literal choice"),
                  ("SIB-16", "writer/reader member-name agreement, metadata handling"),
                  ("FILL", "property columns = union of keys, filled with .get(key, None), one feature sequence"),
